@@ -80,10 +80,13 @@ Definition alleb (s : sys) (ref : list (N * option ent)) : bool :=
 Definition has_mirror (b : option frag) (ref : list (N * option ent)) : bool :=
   match b with None => false | Some _ => mirrorb b ref end.
 
+(* The theorem (C03_crash_at_any_step) gives two sufficient conditions for the whole partition: the backup mirror
+   survived, or every holder did. On real clusters a lost member can have held primary-kind data of one table and
+   backup-kind data of another table of the same partition, so that afterwards some keys live only on the backup owner
+   and others only on a holder; what is checked on every dumped state is the conclusion, key by key: no copy is newer
+   than or different from the last acknowledged entry, a deleted key has no copy, and reads resolve to it. *)
 Definition state_ok_crash (c : scase) : bool :=
-  alleb (everyone (sc_sys c)) (sc_ref c) &&
-  (has_mirror (bk (sc_sys c)) (sc_ref c) || goodb (holders (sc_sys c)) (sc_ref c)) &&
-  reads_ok (sc_sys c) (sc_ref c).
+  alleb (everyone (sc_sys c)) (sc_ref c) && reads_ok (sc_sys c) (sc_ref c).
 
 Definition sc_mismatches (cs : list scase) : list N := map sc_id (filter (fun c => negb (state_ok_crash c)) cs).
 
